@@ -173,6 +173,18 @@ CLAIMED = {
                  "are underdetermined (docs defer to Go's fmt); sub inside an active =~ capture is not specified and not generated. Known finding: lexer rejects \\U, \\a, \\v and astral characters in literals."),
         "design_ref": "DESIGN.md section 4 C15",
     },
+    "C16": {
+        "level": "exploration",
+        "technique": "property-based testing: Hypothesis-generated instants/zones evaluated in batches against Python datetime/zoneinfo (reference model), round trips, inverse pairs and zone-selection metamorphic relations",
+        "text": ("Instants uniform over years 1-9999, dense around leap days, year ends, the epoch, +-2^31, and +-8 h (30-min grid) around every UTC-offset "
+                 "transition 2005-2030 of 9 IANA zones (incl. 30- and 45-minute offsets, Lord Howe half-hour DST), with negative and dyadic fractional seconds: "
+                 "sec2gmt (0-9 decimals), sec2gmtdate, nsec2gmt(date), strftime/strfntime (%Y %m %d %H %M %S %j %a %A %b %B %e %y %I %p %u %w %C %D %F %T %s %1S-%9S), "
+                 "strftime_local/sec2localtime/sec2localdate/gmt2localtime == datetime/zoneinfo; gmt2sec, strptime, strpntime, strptime_local, localtime2sec round "
+                 "trips (local: only unambiguous wall-clock times); sec2dhms/sec2hms layouts and all inverse pairs on ~1200 integers incl. negatives and floats; "
+                 "--tz / TZ / ENV[TZ] select the zone of *_local functions only; sec2gmt/sec2gmtdate verbs == functions, non-numeric unchanged."),
+        "note": "Both sides read /usr/share/zoneinfo. DST overlaps are not asserted (docs silent). datediff, localtime2gmt and %U %W %G %V are not yet covered. nanosecond functions only inside int64 nanoseconds (1678-2262).",
+        "design_ref": "DESIGN.md section 4 C16",
+    },
 }
 
 NOT_YET = "check not built yet in this session (see DESIGN.md section 8 build order); will be claimed when its sub-checks run"
